@@ -125,6 +125,91 @@ theorem strictNat_nil (b : Nat) : strictNat b [] = none := by
 theorem lenientNat_nil (b : Nat) : lenientNat b [] = 0 := by
   simp [lenientNat, strictNat_nil]
 
+/-! ### Base64 -/
+
+theorem b64Val_b64Char : ∀ d, d < 64 → b64Val (b64Char d) = some d := by decide
+
+theorem b64Val_pad : b64Val '=' = none := by decide
+
+theorem b64Val_lt {c : Char} {d : Nat} (h : b64Val c = some d) : d < 64 := by
+  simp only [b64Val] at h
+  split at h
+  · simp at h; omega
+  · split at h
+    · simp at h; omega
+    · split at h
+      · simp at h; omega
+      · split at h
+        · simp at h; omega
+        · split at h
+          · simp at h; omega
+          · simp at h
+
+theorem toNat_ofNat_byte (n : Nat) (h : n < 256) : (Char.ofNat n).toNat = n := by
+  have hv : n.isValidChar := Or.inl (by omega)
+  simp only [Char.ofNat, hv, dite_true, Char.ofNatAux, Char.toNat]
+  simp [UInt32.toNat_ofNatLT]
+
+theorem regroup_lt : ∀ (ds : List Nat), (∀ d ∈ ds, d < 64) → ∀ b ∈ regroup ds, b < 256
+  | [], _, b, hb => by simp [regroup] at hb
+  | [_], _, b, hb => by simp [regroup] at hb
+  | [d0, d1], h, b, hb => by
+    have h0 := h d0 (by simp); have h1 := h d1 (by simp)
+    simp [regroup] at hb; omega
+  | [d0, d1, d2], h, b, hb => by
+    have h0 := h d0 (by simp); have h1 := h d1 (by simp); have h2 := h d2 (by simp)
+    simp [regroup] at hb; omega
+  | d0 :: d1 :: d2 :: d3 :: rest, h, b, hb => by
+    have h0 := h d0 (by simp); have h1 := h d1 (by simp); have h2 := h d2 (by simp); have h3 := h d3 (by simp)
+    simp only [regroup, List.mem_cons] at hb
+    rcases hb with hb | hb | hb | hb
+    · omega
+    · omega
+    · omega
+    · exact regroup_lt rest (fun d hd => h d (by simp [hd])) b hb
+
+theorem b64dec_lt (s : Str) : ∀ b ∈ b64dec s, b < 256 := by
+  apply regroup_lt
+  intro d hd
+  simp only [List.mem_filterMap] at hd
+  obtain ⟨c, _, hc⟩ := hd
+  exact b64Val_lt hc
+
+theorem b64dec_b64enc : ∀ (bs : List Nat), (∀ b ∈ bs, b < 256) → b64dec (b64enc bs) = bs
+  | [], _ => rfl
+  | [a], h => by
+    have ha := h a (by simp)
+    have e1 := b64Val_b64Char (a / 4) (by omega)
+    have e2 := b64Val_b64Char (a % 4 * 16) (by omega)
+    simp only [b64dec, b64enc, List.filterMap_cons, e1, e2, b64Val_pad, List.filterMap_nil, regroup]
+    congr 1; omega
+  | [a, b], h => by
+    have ha := h a (by simp); have hb := h b (by simp)
+    have e1 := b64Val_b64Char (a / 4) (by omega)
+    have e2 := b64Val_b64Char (a % 4 * 16 + b / 16) (by omega)
+    have e3 := b64Val_b64Char (b % 16 * 4) (by omega)
+    simp only [b64dec, b64enc, List.filterMap_cons, e1, e2, e3, b64Val_pad, List.filterMap_nil, regroup]
+    congr 1
+    · omega
+    · congr 1; omega
+  | a :: b :: c :: rest, h => by
+    have ha := h a (by simp); have hb := h b (by simp); have hc := h c (by simp)
+    have e1 := b64Val_b64Char (a / 4) (by omega)
+    have e2 := b64Val_b64Char (a % 4 * 16 + b / 16) (by omega)
+    have e3 := b64Val_b64Char (b % 16 * 4 + c / 64) (by omega)
+    have e4 := b64Val_b64Char (c % 64) (by omega)
+    have ih := b64dec_b64enc rest (fun x hx => h x (by simp [hx]))
+    simp only [b64dec] at ih
+    simp only [b64dec, b64enc, List.filterMap_cons, e1, e2, e3, e4, regroup, ih]
+    congr 1
+    · omega
+    · congr 1
+      · omega
+      · congr 1; omega
+
+theorem strOfBytes_bytesOf (s : Str) : strOfBytes (bytesOf s) = s := by
+  simp [strOfBytes, bytesOf, List.map_map, Function.comp_def]
+
 /-! ### enum names -/
 
 theorem contains_false_iff {l : List Str} {s : Str} : l.contains s = false ↔ s ∉ l := by
@@ -153,6 +238,13 @@ theorem nth_mem : ∀ {names : List Str} {i : Nat}, i < names.length → nth nam
   | n :: ns, i + 1, h => by
     have hi : i < ns.length := by simpa using h
     simp [nth, nth_mem hi]
+
+theorem nth_nil_of_ge : ∀ {names : List Str} {i : Nat}, names.length ≤ i → nth names i = []
+  | [], _, _ => by simp [nth]
+  | n :: ns, 0, h => by simp at h
+  | n :: ns, i + 1, h => by
+    have hi : ns.length ≤ i := by simpa using h
+    simp [nth, nth_nil_of_ge hi]
 
 theorem idxOf_nth : ∀ {names : List Str} {i : Nat}, nodupB names = true → i < names.length →
     idxOf (nth names i) names = some i
@@ -185,6 +277,16 @@ theorem FTy.canon_parse (ty : FTy) (s : Str) : ty.canon (ty.parse s) = true := b
     cases h : idxOf s ns with
     | none => rfl
     | some n => simp [FTy.canon, idxOf_lt h]
+  | enumD ns d =>
+    simp only [FTy.parse]
+    cases h : idxOf s ns with
+    | none => simp [FTy.canon]
+    | some n => simp [FTy.canon, idxOf_lt h]
+  | b64 =>
+    simp only [FTy.parse, FTy.canon, List.all_eq_true, decide_eq_true_eq, strOfBytes, List.mem_map]
+    rintro c ⟨b, hb, rfl⟩
+    have := b64dec_lt s b hb
+    rw [toNat_ofNat_byte b this]; exact this
 
 /-- (A)+(B): whatever is printed (possibly nothing) parses back to the value -/
 theorem FTy.parse_show (ty : FTy) (v : Val) (hw : ty.wf = true) (hc : ty.canon v = true) :
@@ -222,6 +324,24 @@ theorem FTy.parse_show (ty : FTy) (v : Val) (hw : ty.wf = true) (hc : ty.canon v
         simp only [FTy.canon, decide_eq_true_eq] at hc
         simp [FTy.show, FTy.parse, idxOf_nth hw.2 hc]
     | _ => simp [FTy.canon] at hc
+  | enumD ns d =>
+    cases v with
+    | nat i =>
+      simp only [FTy.wf, Bool.and_eq_true, Bool.not_eq_true', contains_false_iff] at hw
+      simp only [FTy.canon, Bool.or_eq_true, decide_eq_true_eq, beq_iff_eq] at hc
+      simp only [FTy.show, FTy.parse]
+      by_cases hi : i < ns.length
+      · simp [idxOf_nth hw.2 hi]
+      · have hd : i = d := by rcases hc with h | h; exact absurd h hi; exact h
+        rw [nth_nil_of_ge (by omega), idxOf_none_of_not_mem hw.1, hd]
+    | _ => simp [FTy.canon] at hc
+  | b64 =>
+    cases v with
+    | str s =>
+      simp only [FTy.canon, List.all_eq_true, decide_eq_true_eq] at hc
+      simp only [FTy.show, FTy.parse]
+      rw [b64dec_b64enc _ (by simpa [bytesOf] using hc), strOfBytes_bytesOf]
+    | _ => simp [FTy.canon] at hc
 
 /-- (C): the value an omitting writer skips is what an absent attribute/element reads as -/
 theorem FTy.parse_nil_of_default (ty : FTy) (v : Val) (hw : ty.wf = true) (hc : ty.canon v = true)
@@ -244,6 +364,20 @@ theorem FTy.parse_nil_of_default (ty : FTy) (v : Val) (hw : ty.wf = true) (hc : 
     | opt i =>
       simp only [FTy.wf, Bool.and_eq_true, Bool.not_eq_true', contains_false_iff] at hw
       cases i <;> simp_all [FTy.isDefault, FTy.parse, idxOf_none_of_not_mem]
+    | _ => simp [FTy.canon] at hc
+  | enumD ns d =>
+    cases v with
+    | nat i =>
+      simp only [FTy.wf, Bool.and_eq_true, Bool.not_eq_true', contains_false_iff] at hw
+      simp only [FTy.isDefault, beq_iff_eq] at hd
+      simp [FTy.parse, idxOf_none_of_not_mem hw.1, hd]
+    | _ => simp [FTy.canon] at hc
+  | b64 =>
+    cases v with
+    | str s =>
+      simp only [FTy.isDefault, List.isEmpty_iff] at hd
+      subst hd
+      rfl
     | _ => simp [FTy.canon] at hc
 
 /-! ### attribute and child lookup -/
@@ -322,7 +456,7 @@ theorem encF_attrs (f : Field) (v : Val) : ∀ kv ∈ (encF f v).1, f.writes kv.
     split at h
     · split at h <;> simp at h
     · simp at h
-  | many hd fs =>
+  | many hd fs ne =>
     simp only [encF] at h
     split at h <;> simp at h
 
@@ -420,7 +554,7 @@ theorem encF_kids (pns : Str) (f : Field) (v : Val) (hw : wfF pns f = true) (hc 
         rw [nsOf_mk' hd pns _ (encFs fs vs).2 hw.1 (encFs_no_xmlns vs hw.2)]
         simp [Field.heads, Head.mk', Node.isElem, Node.name]
     · simp at hk
-  | many hd fs =>
+  | many hd fs ne =>
     right
     simp only [wfF, Bool.and_eq_true] at hw
     simp only [encF] at hk
@@ -489,23 +623,23 @@ theorem indep_sees (pns : Str) (f g : Field) (v : Val) (hi : indep f g = true)
       · simp [Field.sees, Head.matches, h'.2]
       · cases g <;> simp_all [Field.isText, Field.heads]
     | false =>
-      have hall : g.heads.all (fun hd => !(hd.1 == h.tag && (h.anyNs || hd.2 == h.ns))) = true := by
+      have hall : g.heads.all (fun hd => !((h.anyTag || hd.1 == h.tag) && (h.anyNs || hd.2 == h.ns))) = true := by
         cases g <;> simp_all [indep, Field.isText]
       have := heads_all_sees pns g v hwg hcg hgt
-        (fun hd => hd.1 == h.tag && (h.anyNs || hd.2 == h.ns)) hall k hk
+        (fun hd => (h.anyTag || hd.1 == h.tag) && (h.anyNs || hd.2 == h.ns)) hall k hk
       simp only [Field.sees, Head.matches, this.1, Bool.true_and]
       exact this.2
-  | many h fs =>
+  | many h fs ne =>
     cases hgt : g.isText with
     | true =>
       rcases encF_kids pns g v hwg hcg k hk with h' | h'
       · simp [Field.sees, Head.matches, h'.2]
       · cases g <;> simp_all [Field.isText, Field.heads]
     | false =>
-      have hall : g.heads.all (fun hd => !(hd.1 == h.tag && (h.anyNs || hd.2 == h.ns))) = true := by
+      have hall : g.heads.all (fun hd => !((h.anyTag || hd.1 == h.tag) && (h.anyNs || hd.2 == h.ns))) = true := by
         cases g <;> simp_all [indep, Field.isText]
       have := heads_all_sees pns g v hwg hcg hgt
-        (fun hd => hd.1 == h.tag && (h.anyNs || hd.2 == h.ns)) hall k hk
+        (fun hd => (h.anyTag || hd.1 == h.tag) && (h.anyNs || hd.2 == h.ns)) hall k hk
       simp only [Field.sees, Head.matches, this.1, Bool.true_and]
       exact this.2
 
@@ -630,7 +764,7 @@ theorem decF_encF : ∀ (f : Field) (pns t : Str) (P R : List (Str × Str)) (Q S
           (by simp)
         simpa [Head.mk'] using congrArg Val.record this
     | _ => simp [canonF] at hc
-  | .many h fs, pns, t, P, R, Q, S, v, hw, hc, _, _, hQ, hS => by
+  | .many h fs ne, pns, t, P, R, Q, S, v, hw, hc, _, _, hQ, hS => by
     simp only [Field.sees] at hQ hS
     simp only [wfF, Bool.and_eq_true] at hw
     simp only [decF, Node.kids, encF]
@@ -735,7 +869,7 @@ theorem canonF_decF : ∀ (f : Field) (pns : Str) (x : Node), canonF f (decF pns
     · split
       · rename_i hm; simp only [canonF, hm]
       · simp only [canonF]; exact canonFs_decFs fs _ _
-  | .many h fs, pns, x => by
+  | .many h fs ne, pns, x => by
     simp only [decF, canonF, List.all_eq_true, List.mem_map]
     rintro it ⟨k, _, rfl⟩
     exact canonFs_decFs fs _ _
@@ -746,18 +880,27 @@ theorem canonFs_decFs : ∀ (fs : List Field) (pns : Str) (x : Node), canonFs fs
     exact ⟨canonF_decF f pns x, canonFs_decFs fs pns x⟩
 end
 
-/-- schemas without mandatory parts accept every value list -/
+-- schemas without mandatory parts accept every value list
+mutual
+theorem mandF_of_noMand : ∀ (f : Field) (v : Val), noMandF f = true → mandF f v = true
+  | .attr .., _, _ => by simp [mandF]
+  | .attrReadOnly .., _, _ => by simp [mandF]
+  | .text _, _, _ => by simp [mandF]
+  | .enumChild _ _ _ _ m, v, h => by
+    simp only [noMandF, Bool.not_eq_true'] at h
+    simp [mandF, h]
+  | .many _ fs ne, v, h => by
+    simp only [noMandF, Bool.and_eq_true, Bool.not_eq_true'] at h
+    cases v <;> simp [mandF, h.1]
+  | .child _ fs mode, v, h => by
+    simp only [noMandF] at h
+    cases v <;> simp [mandF, mandOK_of_noMand fs _ h]
 theorem mandOK_of_noMand : ∀ (fs : List Field) (vs : List Val), noMandFs fs = true → mandOK fs vs = true
   | [], _, _ => by simp [mandOK]
-  | f :: fs, [], _ => by cases f <;> simp [mandOK]
+  | _ :: _, [], _ => by simp [mandOK]
   | f :: fs, v :: vs, h => by
     simp only [noMandFs, Bool.and_eq_true] at h
-    have ih := mandOK_of_noMand fs vs h.2
-    cases f with
-    | enumChild ns decl anyNs names m =>
-      cases m with
-      | true => simp [noMandF] at h
-      | false => simp [mandOK, ih]
-    | _ => simp [mandOK, ih]
+    simp [mandOK, mandF_of_noMand f v h.1, mandOK_of_noMand fs vs h.2]
+end
 
 end Qx.Xml.Codec
